@@ -29,6 +29,10 @@ import (
 
 type OpID = spectypes.OperatorID
 
+// Domain is the SSV domain every world signs under (message ids and signing roots). The C10 driver sets it to
+// the domain of the network config its peer validators run with.
+var Domain = tu.TestingSSVDomainType
+
 // Emitted is one broadcast captured from an honest operator.
 type Emitted struct {
 	From OpID
@@ -158,7 +162,7 @@ func NewWorld(n int, byz []int, height uint64, startVals map[int]string, role sp
 	for _, b := range byz {
 		w.Byz[OpID(b)] = true
 	}
-	mid := spectypes.NewMsgID(tu.TestingSSVDomainType, ks.ValidatorPK.Serialize(), role)
+	mid := spectypes.NewMsgID(Domain, ks.ValidatorPK.Serialize(), role)
 	w.ID = mid[:]
 	for i := 1; i <= n; i++ {
 		id := OpID(i)
@@ -175,7 +179,7 @@ func NewWorld(n int, byz []int, height uint64, startVals map[int]string, role sp
 		cfg := &qbft.Config{
 			Signer:                tu.NewTestingKeyManager(),
 			SigningPK:             share.SharePubKey,
-			Domain:                tu.TestingSSVDomainType,
+			Domain:                Domain,
 			ValueCheckF:           ValueCheck,
 			ProposerF:             specqbft.RoundRobinProposer,
 			Storage:               qbftstorage.NewStoresFromRoles(db, role).Get(role),
@@ -194,7 +198,7 @@ func (w *World) Share(id OpID) *spectypes.Share {
 		OperatorID:      id,
 		ValidatorPubKey: w.KS.ValidatorPK.Serialize(),
 		SharePubKey:     w.KS.Shares[id].GetPublicKey().Serialize(),
-		DomainType:      tu.TestingSSVDomainType,
+		DomainType:      Domain,
 		Quorum:          w.KS.Threshold,
 		PartialQuorum:   w.KS.PartialThreshold,
 		Committee:       w.KS.Committee(),
@@ -285,7 +289,7 @@ func (w *World) FindRC(from OpID, round, pr int, pv string) *specqbft.SignedMess
 // ---- the adversary: messages signed with the Byzantine operators' real keys -------------------------------
 
 func (w *World) sign(s OpID, msg *specqbft.Message, fullData []byte) *specqbft.SignedMessage {
-	sm := tu.SignQBFTMsg(w.KS.Shares[s], s, msg)
+	sm := w.multiSign([]*bls.SecretKey{w.KS.Shares[s]}, []OpID{s}, msg) // signs under the package Domain
 	sm.FullData = fullData
 	return sm
 }
@@ -512,7 +516,7 @@ func (w *World) ForgedCert(kind string, round int, value string) *specqbft.Signe
 // multiSign aggregates the signatures of sks over msg and lists ids as signers, without any sanity check
 // (the spec helper refuses duplicate signers; the adversary does not).
 func (w *World) multiSign(sks []*bls.SecretKey, ids []OpID, msg *specqbft.Message) *specqbft.SignedMessage {
-	root, err := spectypes.ComputeSigningRoot(msg, spectypes.ComputeSignatureDomain(tu.TestingSSVDomainType, spectypes.QBFTSignatureType))
+	root, err := spectypes.ComputeSigningRoot(msg, spectypes.ComputeSignatureDomain(Domain, spectypes.QBFTSignatureType))
 	if err != nil {
 		panic(err)
 	}
@@ -662,7 +666,7 @@ func (w *World) VerifyCert(m *specqbft.SignedMessage) string {
 	if err != nil || r != m.Message.Root {
 		return "full data does not hash to the root"
 	}
-	root, err := spectypes.ComputeSigningRoot(&m.Message, spectypes.ComputeSignatureDomain(tu.TestingSSVDomainType, spectypes.QBFTSignatureType))
+	root, err := spectypes.ComputeSigningRoot(&m.Message, spectypes.ComputeSignatureDomain(Domain, spectypes.QBFTSignatureType))
 	if err != nil {
 		return "cannot compute signing root"
 	}
